@@ -337,6 +337,10 @@ func injectConcretise(segs []injectSeg, id, variant int, salt string) *injectCon
 		b.WriteString("func init() { _ = context.Background }\n")
 	}
 	c.Src = b.String()
+	if r.Intn(6) == 0 {
+		// a UTF-8 byte order mark in front of the package clause: valid Go (the scanner skips it, offsets count it)
+		c.Src = "\uFEFF" + c.Src
+	}
 	suffix := []string{".go", ".pb.go", "_gen.go", ".validator.go"}[r.Intn(4)]
 	c.Name = fmt.Sprintf("s%06d_%d%s", id, variant, suffix)
 	return c
@@ -1061,6 +1065,20 @@ func injectDirsCmd(args []string) error {
 		r := injectRng(v.ID, 0, "dirvec")
 		for i := range v.Ents {
 			injectConcretiseEnt(&v.Ents[i], v.ID, i+1)
+		}
+		// adversarial neighbours: every other non-Go file is named after a Go file of the same directory plus a
+		// suffix that tools writing "next to" a file like to use (temp / backup names) - it must stay untouched too
+		var goNames []string
+		for i := range v.Ents {
+			if k := v.Ents[i].Kind; k == "go" || k == "broken" {
+				goNames = append(goNames, v.Ents[i].Conc.Name)
+			}
+		}
+		for i := range v.Ents {
+			if v.Ents[i].Kind == "nongo" && len(goNames) > 0 && r.Intn(2) == 0 {
+				sfx := []string{".tmp", ".bak", "~", ".orig", ".new", ".swp", ".1", ".tmp"}[r.Intn(8)]
+				v.Ents[i].Conc.Name = goNames[r.Intn(len(goNames))] + sfx
+			}
 		}
 		if v.Pattern == "" {
 			v.Pattern = []string{"*.go", "*", "e*", "*.go", "e?_*.go"}[r.Intn(5)]
